@@ -116,7 +116,7 @@ func genEnvSetsOne(rt *rapid.T, n int) []int {
 
 func TestC09Transparency(t *testing.T) {
 	st := StatsFor("C09")
-	cfg := GenCfg{Depth: 3, Env: false, DD: false}
+	cfg := GenCfg{Depth: 3, Env: false, DD: false, Exotic: true}
 	rapid.Check(t, func(rt *rapid.T) {
 		p := GenProgram(rt, cfg)
 		argv, src := GenArgv(rt, p.D, p.AST, cfg)
@@ -125,7 +125,7 @@ func TestC09Transparency(t *testing.T) {
 	})
 }
 
-var tailPool = []string{"x", "y", "-", "-a", "-z", "--all", "--zzz", "-o", "--out=v", "-ab", "--", "1", "-1", "a=b", "-o=", "---", "-=", "--out"}
+var tailPool = []string{"x", "y", "-", "-a", "-z", "--all", "--zzz", "-o", "--out=v", "-ab", "--", "1", "-1", "a=b", "-o=", "---", "-=", "--out", " x ", "y\t", " -a", "-b ", ""}
 
 func TestC09Tail(t *testing.T) {
 	st := StatsFor("C09")
@@ -201,5 +201,59 @@ func TestC09Tail(t *testing.T) {
 		}
 		c.Tail = tail
 		Report(rt, "C09", "tail", c, CheckC09Tail(c, st))
+	})
+}
+
+// TestC09DoubleDD: specs with TWO spec-level "--" (the README's "[-- CMD [ARG...]]" shape followed by another "--"):
+// each must act as if a "--" were written at that position of the command line, whatever optional groups were skipped.
+// The oracle is the reference semantics (verdict and bindings), as in C01/C02.
+func TestC09DoubleDD(t *testing.T) {
+	st := StatsFor("C09")
+	rapid.Check(t, func(rt *rapid.T) {
+		d := GenDecls(rt, GenCfg{})
+		for len(d.Args) < 3 {
+			d.Args = append(d.Args, ArgDecl{Name: argNamePool[len(d.Args)]})
+		}
+		x, y, z := &Node{Kind: KArg, Arg: 0}, &Node{Kind: KArg, Arg: 1}, &Node{Kind: KArg, Arg: 2}
+		ddn := func() *Node { return &Node{Kind: KDD} }
+		opt := func(k *Node) *Node { return &Node{Kind: KOptional, Kids: []*Node{k}} }
+		rep := func(k *Node) *Node { return &Node{Kind: KRep, Kids: []*Node{k}} }
+		seq := func(k ...*Node) *Node { return &Node{Kind: KSeq, Kids: k} }
+		var P *Node
+		if chance(rt, 2, 3, "haveP") {
+			var cand []int
+			for i, o := range d.Opts {
+				if !o.OnlyViaOptions {
+					cand = append(cand, i)
+				}
+			}
+			P = opt(&Node{Kind: KOpt, Opt: cand[intn(rt, len(cand), "popt")]})
+		}
+		var body *Node
+		switch intn(rt, 4, "ddshape") {
+		case 0:
+			body = seq(opt(seq(ddn(), x, opt(rep(y)))), ddn(), rep(z))
+		case 1:
+			body = seq(opt(seq(ddn(), x)), opt(seq(ddn(), y)), rep(z))
+		case 2:
+			body = seq(opt(seq(ddn(), x, opt(y))), opt(ddn()), rep(z))
+		default:
+			body = seq(opt(seq(ddn(), opt(x))), ddn(), opt(y), rep(z))
+		}
+		ast := body
+		if P != nil {
+			ast = seq(P, body)
+		}
+		cfg := GenCfg{Exotic: true}
+		items := SampleItems(rt, d, ast, cfg)
+		argv := Spell(rt, d, items)
+		// dash-prefixed tokens where a spec-level -- would have to let them through
+		for i, n := 0, rapid.IntRange(0, 3).Draw(rt, "ndash"); i < n; i++ {
+			p := intn(rt, len(argv)+1, "dashat")
+			tk := rapid.SampledFrom([]string{"-x", "-a", "--foo=bar", "-", "--", "-1", "--all"}).Draw(rt, "dashtok")
+			argv = append(argv[:p:p], append([]string{tk}, argv[p:]...)...)
+		}
+		c := &ParseCase{Program: Program{D: d, AST: ast, SpecStr: ast.Render(d)}, Argv: argv, Source: "double-dd"}
+		Report(rt, "C09", "parse", c, CheckC09Parse(c, st))
 	})
 }
